@@ -69,7 +69,9 @@ func (r *ComDoc) writeShortSAT() error {
 		}
 		previous = sector
 	}
-	r.SAT[previous] = SecIDEndOfChain
+	if previous != SecIDEndOfChain {
+		r.SAT[previous] = SecIDEndOfChain
+	}
 	r.Header.SSATNextSector = first
 	r.Header.SSATSectorCount = uint32(len(freeList))
 	return nil
@@ -112,6 +114,11 @@ func (r *ComDoc) writeShortSector(shortSector SecID, content []byte) error {
 	bigSectorIndex := int(shortSector) * r.ShortSectorSize / r.SectorSize
 	offset := int(shortSector)*r.ShortSectorSize - bigSectorIndex*r.SectorSize
 	root := &r.Files[r.rootStorage]
+	if root.NextSector < 0 {
+		// no short sector stream yet
+		root.NextSector = r.makeFreeSectors(1, false)[0]
+		r.SAT[root.NextSector] = SecIDEndOfChain
+	}
 	bigSectorID := root.NextSector
 	for ; bigSectorIndex > 0; bigSectorIndex-- {
 		next := r.SAT[bigSectorID]
